@@ -162,13 +162,29 @@ func child(args []string) {
 	case "selfkill":
 		syscall.Kill(os.Getpid(), syscall.SIGKILL)
 		select {}
-	case "close":
+	case "close", "closestore":
 		say("PHASE close")
 		if err := d.Close(); err != nil {
 			say("CLOSEERR " + err.Error())
 			os.Exit(5)
 		}
 		say("CLOSED")
+		if mode == "closestore" && to < len(h) {
+			// a store that arrives after the store was closed (in the node the close is a deferred call while the
+			// processor is still running): refused with an error, or - if it is acknowledged - found afterwards
+			func() {
+				defer func() {
+					if p := recover(); p != nil {
+						say(fmt.Sprintf("LATESTORE-PANIC %v", p))
+					}
+				}()
+				if err := d.StoreSignedVAA(mkVAA(h[to])); err == nil {
+					say(fmt.Sprintf("ACK %d", to))
+				} else {
+					say("LATESTORE-REFUSED " + err.Error())
+				}
+			}()
+		}
 	}
 	os.Exit(0)
 }
@@ -587,6 +603,7 @@ func main() {
 	os.MkdirAll(base, 0o755)
 	defer os.RemoveAll(base)
 	var dirN int64
+	var lateStores int64
 	newDir := func() string {
 		d := filepath.Join(base, fmt.Sprintf("d%d", atomic.AddInt64(&dirN, 1)))
 		return d
@@ -651,6 +668,23 @@ func main() {
 				check(self, dir, kind, k, nil, sc)
 			})
 		}
+	}
+	// ---- family 1d: a store after Close (shutdown race): whatever StoreSignedVAA acknowledges must be found when the
+	// directory is opened again
+	for k := 0; k < len(h); k++ {
+		k := k
+		jobs = append(jobs, func() {
+			dir := newDir()
+			defer os.RemoveAll(dir)
+			acks, _, _, raw := runChild(self, dir, 0, k, "closestore", "", 0)
+			sc := scenario{Name: "store after Close", Steps: []string{fmt.Sprintf("stores 0..%d, Close, then store %d", k, k)}, Acked: acks}
+			if !strings.Contains(raw, "CLOSED") {
+				r.Violation("child did not run as scripted (store, open or close failed)", raw, sc)
+				return
+			}
+			atomic.AddInt64(&lateStores, 1)
+			check(self, dir, "", acks, nil, sc)
+		})
 	}
 	// ---- family 2: strace-injected kills at every syscall index N of a phase
 	// measure the largest useful N per phase with a dry run under strace -c
@@ -857,6 +891,7 @@ func main() {
 	mc.ParallelFor(len(jobs), func(i int) { jobs[i]() })
 	r.Set("torn_images", int(atomic.LoadInt64(tornImages)))
 	r.Set("kill_points", int(kills))
+	r.Set("stores_after_close", int(lateStores))
 	r.Set("reopens_verified", int(opens))
 	r.Set("distinct_last_ack", len(lastAck))
 	r.Set("strace_kills_per_sweep", sweepKilled)
